@@ -803,7 +803,7 @@ func keyConfs(r *c.Rng, n int) []wconf {
 		mk("service name with a space", "my svc", "sha256", "MixedCaseSecret"),
 		mk("service name with a dash", "my-svc", "sha256", "s3cr3T"),
 		mk("service name with surrounding and repeated white space", "  pad  ded\tname ", "sha256", "K"),
-		mk("K3: service name with upper-case letters", "MySvc", "sha256", "shared-secret-value"),
+		mk("service name with upper-case letters (witness of C12-K3, fixed in c723740)", "MySvc", "sha256", "shared-secret-value"),
 		{Signer: true, Service: "svc", EnvName: "SVC_SIGNING_KEY", Spec: "sha256", Note: "no ':' at all: refused"},
 		{Signer: true, Service: "svc", EnvName: "OTHER_SIGNING_KEY", Spec: "sha256:x", Note: "variable of another service: HMAC off"},
 	}
